@@ -113,7 +113,9 @@ def ifft(data, shift=True):
                 shifted,
                 axes=[data.dims.index('m'), data.dims.index('n')])
         else:
-            res = np.fft.ifft2(data_np)
+            res = np.fft.ifft2(
+                data_np,
+                axes=[data.dims.index('m'), data.dims.index('n')])
 
     if isinstance(data, xr.DataArray):
         res = xr.DataArray(res, **transform_metadata(data, True))
